@@ -38,23 +38,23 @@ def hist(tag, ops, quick=150, thorough=1500, cover=None):
 
 PROPS = {
     "C01": {"lean": ["QF.Props.C01", "QF.Props.C01Ops", "QF.Props.C08ProjectGen"], "extra_ns": ["QF.Props.C08ProjectGen"],
-            "sections": [dict(hist("hist", ["apply", "copy", "rownums", "eval", "sort"], quick=250), cover_ops=None)],
+            "sections": [dict(hist("hist", ["apply", "copy", "rownums", "eval", "sort", "filter", "fapply"], quick=400, thorough=3000), cover_ops=None)],
             "rule": "every step of every generated history re-observes all earlier family members (digest of the full observation); "
                     "evaluations = observations compared; non-trivial = successful operation on a result with >= 2 rows; distinct by (operation, result)"},
     "C02": {"lean": ["QF.Props.C02", "QF.Props.C02Spec", "QF.Props.C02Mirror", "QF.Props.C02Kernels", "QF.Props.C02Dispatch", "QF.Props.C02ClausesCanon", "QF.Props.C02ClausesFns", "QF.Props.C02ClausesGen", "QF.Props.C02ClausesLink"], "extra_ns": ["QF.Props.C02Spec", "QF.Props.C02Mirror", "QF.Props.C02Kernels", "QF.Props.C02Dispatch", "QF.Props.C02ClausesGen"],
             "sections": [hist("hist", ["filter"]),
                          {"section": "hist", "tag": "hist-filter", "opt": "ops=filter+filter+filter+filter+sort+slice+distinct", "quick": 400, "thorough": 4000, "cover_ops": {"filter"}}]},
-    "C03": {"lean": ["QF.Props.C03", "QF.Props.C03Spec", "QF.Props.C03Compare", "QF.Props.C10Guards"], "extra_ns": ["QF.Props.C03Compare", "QF.Props.C10Guards"],
+    "C03": {"lean": ["QF.Props.C03", "QF.Props.C03Spec", "QF.Props.C03Compare", "QF.Props.C10Guards", "QF.Props.C03SorterCanon", "QF.Props.C03SorterExec", "QF.Props.C03SorterFns", "QF.Props.C03SorterPivot", "QF.Props.C03SorterGen", "QF.Props.C03SorterLink"], "extra_ns": ["QF.Props.C03Compare", "QF.Props.C10Guards", "QF.Props.C03SorterGen"],
             "sections": [hist("hist", ["sort"]),
                          {"section": "sortadv", "quick": 300, "thorough": 3000, "cover_ops": {"SA"}}]},
-    "C04": {"lean": ["QF.Props.C04", "QF.Props.C04Spec", "QF.Props.C03Compare", "QF.Props.C04Hash", "QF.Props.C04Aggregations", "QF.Props.C10Guards", "QF.Props.C04LoopsGen"], "extra_ns": ["QF.Props.C04Spec", "QF.Props.C03Compare", "QF.Props.C04Hash", "QF.Props.C04Aggregations", "QF.Props.C10Guards", "QF.Props.C04LoopsGen"],
+    "C04": {"lean": ["QF.Props.C04", "QF.Props.C04Spec", "QF.Props.C03Compare", "QF.Props.C04Hash", "QF.Props.C04Aggregations", "QF.Props.C10Guards", "QF.Props.C04LoopsGen", "QF.Props.C04GrouperCanon", "QF.Props.C04GrouperFns", "QF.Props.C04GrouperGrow", "QF.Props.C04GrouperInsert", "QF.Props.C04GrouperTotal", "QF.Props.C04GrouperGen", "QF.Props.C04GrouperWitness"], "extra_ns": ["QF.Props.C04Spec", "QF.Props.C03Compare", "QF.Props.C04Hash", "QF.Props.C04Aggregations", "QF.Props.C10Guards", "QF.Props.C04LoopsGen", "QF.Props.C04GrouperGen"],
             "sections": [hist("hist", ["groupagg", "groupframes", "permute", "grouptest"], quick=300, cover=["groupagg", "groupframes"]),
                          {"section": "grpadv", "quick": 600, "thorough": 6000, "cover_ops": {"GA"}},
                          {"section": "grpadv", "tag": "grpbig", "opt": "big=1", "quick": 1, "thorough": 4, "cover_ops": {"GB"}}]},
-    "C05": {"lean": ["QF.Props.C05", "QF.Props.C05Distinct", "QF.Props.C04", "QF.Props.C04Spec", "QF.Props.C03Compare", "QF.Props.C04Hash", "QF.Props.C10Guards"], "extra_ns": ["QF.Props.C04", "QF.Props.C04Spec", "QF.Props.C03Compare", "QF.Props.C04Hash", "QF.Props.C10Guards"], "sections": [hist("hist", ["distinct"])]},
+    "C05": {"lean": ["QF.Props.C05", "QF.Props.C05Distinct", "QF.Props.C04", "QF.Props.C04Spec", "QF.Props.C03Compare", "QF.Props.C04Hash", "QF.Props.C10Guards", "QF.Props.C04GrouperCanon", "QF.Props.C04GrouperFns", "QF.Props.C04GrouperGrow", "QF.Props.C04GrouperInsert", "QF.Props.C04GrouperTotal", "QF.Props.C04GrouperGen", "QF.Props.C04GrouperWitness", "QF.Props.C05DistinctGen"], "extra_ns": ["QF.Props.C04", "QF.Props.C04Spec", "QF.Props.C03Compare", "QF.Props.C04Hash", "QF.Props.C10Guards", "QF.Props.C04GrouperGen"], "sections": [hist("hist", ["distinct"])]},
     "C06": {"lean": ["QF.Props.C06", "QF.Props.C06Apply", "QF.Props.C06LoopsGen"], "extra_ns": ["QF.Props.C06LoopsGen"],
             "sections": [{"section": "hist", "tag": "hist-wit", "opt": "wit=1", "quick": 1, "thorough": 1, "cover_ops": {"fapply"}},
-                         hist("hist", ["apply", "fapply", "rownums"])]},
+                         hist("hist", ["apply", "fapply", "rownums"], quick=350, thorough=3000)]},
     "C07": {"lean": ["QF.Props.C07", "QF.Props.C07Eval", "QF.Props.C07Functions", "QF.Props.C06", "QF.Props.C07Decode", "QF.Props.C06LoopsGen"], "extra_ns": ["QF.Props.C07Eval", "QF.Props.C07Functions", "QF.Props.C07Decode", "QF.Props.C06LoopsGen"], "sections": [hist("hist", ["eval", "eval", "permute"], quick=300, cover=["eval"])]},
     "C08": {"lean": ["QF.Props.C08", "QF.Props.C08Project", "QF.Props.C08Guards", "QF.Props.C08Construct", "QF.Props.C08ProjectGen"], "extra_ns": ["QF.Props.C08Guards", "QF.Props.C08Construct", "QF.Props.C08ProjectGen"],
             "sections": [hist("hist", ["select", "drop", "slice", "copy"], cover=["new", "select", "drop", "slice", "copy"]),
@@ -67,7 +67,7 @@ PROPS = {
             "rule": "cases = batches of 6..12 operations (Filter incl. like/ilike, Sort, Distinct, GroupBy/Aggregate, Apply, FilteredApply, Eval with one shared context, Select/Slice/Copy, ToCSV/ToJSON/String, Equals) "
                     "started together on one frame family, each batch three times, in a binary built with the race detector; every result is compared with the result of the same operation run alone",
             "open_goals": ["the Go memory model is not modelled: absence of races in the real code is observed by the race detector on the explored schedules, not proved"]},
-    "C12": {"lean": ["QF.Props.C12", "QF.Props.C12Read", "QF.Props.C12Infer", "QF.Props.C12InferGen"], "extra_ns": ["QF.Props.C12Read", "QF.Props.C12Infer", "QF.Props.C12InferGen"],
+    "C12": {"lean": ["QF.Props.C12", "QF.Props.C12Read", "QF.Props.C12Infer", "QF.Props.C12InferGen", "QF.Props.C12CsvCanon", "QF.Props.C12CsvFns", "QF.Props.C12CsvQuoted", "QF.Props.C12CsvGen"], "extra_ns": ["QF.Props.C12Read", "QF.Props.C12Infer", "QF.Props.C12InferGen", "QF.Props.C12CsvGen"],
             "sections": [{"section": "csvraw", "tag": "csvraw-wit", "opt": "wit=1", "quick": 1, "thorough": 1, "cover_ops": {"C"}},
                          {"section": "csvraw", "quick": 300, "thorough": 3000, "cover_ops": {"C"}},
                          {"section": "csvread", "quick": 300, "thorough": 3000, "cover_ops": {"CV"}}],
@@ -116,7 +116,7 @@ PROPS = {
             "sections": [{"section": "like", "quick": 1500, "thorough": 20000, "cover_ops": {"M", "ME"}}],
             "rule": "cases = (pattern, case flag, cells) run through the real NewMatcher/Matches/ToUpper and through Filter on a string column and an enum column with the same cells; "
                     "compared with the documented rule and the ToUpper mirror; unicode.ToUpper and regexp matching are oracle annotations from the Go standard library"},
-    "C15": {"lean": ["QF.Props.C15", "QF.Props.C15Faults", "QF.Props.C12", "QF.Props.C14WriterGen", "QF.Props.C13WriterGen"], "extra_ns": ["QF.Props.C15Faults", "QF.Props.C12", "QF.Props.C14WriterGen", "QF.Props.C13WriterGen"],
+    "C15": {"lean": ["QF.Props.C15", "QF.Props.C15Faults", "QF.Props.C12", "QF.Props.C14WriterGen", "QF.Props.C13WriterGen", "QF.Props.C12CsvCanon", "QF.Props.C12CsvFns", "QF.Props.C12CsvQuoted", "QF.Props.C12CsvGen"], "extra_ns": ["QF.Props.C15Faults", "QF.Props.C12", "QF.Props.C14WriterGen", "QF.Props.C13WriterGen", "QF.Props.C12CsvGen"],
             "sections": [dict(hist("hist", ["wfault"], quick=60, thorough=400), tag="hist-wfault", cover_ops=None, owns=lambda m: m["op"] in ("wfault", "rfault")),
                          dict(hist("hist", ["tosql", "tosql", "sort"], quick=60, thorough=400), tag="hist-sqlfault", opt="sqlfaults=1," + mix("tosql", "tosql", "sort"), cover_ops=None, owns=lambda m: m["op"] == "sqlfault"),
                          {"section": "sqlread", "tag": "sqlreadfaults", "opt": "faults=1", "quick": 300, "thorough": 3000, "cover_ops": {"SR"}},
@@ -144,12 +144,12 @@ LEVEL_TEXT = {
                "The Go memory model and slice aliasing are represented only by the ownership discipline; that each Go operation obeys it is validated by T2 (re-observation), not proved from the Go source."),
     "C02": _lt("gen_clause_filter_semantics: the clause evaluation (QFrame.filter, And/Or/Not/Null, orFrames, index.Filter - 25 functions regenerated statement by statement) equals the mirror for every clause tree and frame, so together with the regenerated kernels and dispatch the whole of Filter is regenerated from source and proved against the row-wise spec. The evaluation of a Filter leaf is regenerated from today's source and proved equal to the spec for ALL cells: gen_kernel_semantics (every kernel of the five column packages adds exactly the spec's predicate to the mask), gen_leaf_semantics_partial (dispatch on comparator string and argument kind, table look-ups, errors, enum strictness = leafPred; excluded: float constants on int columns, which the code documents as truncated). filter_refines: the mirror of QFrame.filter/And/Or/Not with the shared mask and the inverse shortcut returns exactly index.filter sem for every clause tree and physical index; mirrorFilter_eq_spec_today: the executable mirror built from today's tables = the spec's keptRows. Every generated Filter call is compared with spec and mirror.",
                "Lean 4 proof (translator-regenerated kernels, dispatch and tables proved against a row-wise spec; refinement of the clause-tree mirror) + differential correspondence"),
-    "C03": _lt("sort_perm / sort_sorted_full: the line-by-line mirror of internal/sort (pdqsort with heapsort fallback) returns a sorted permutation for every size, strict weak order and regime; gen_compare_semantics / sorter_less_eq_rowLess: the comparators regenerated from today's source are the spec's keyCmp for all cells and flag settings, and Sorter.Less over them is the spec's rowLess; gen_reject_semantics (Sort rejects exactly unknown columns). The exact permutation of the real sorter is compared with the mirror on adversarial inputs; Sort results are checked to be sorted permutations.",
+    "C03": _lt("sort_perm / sort_sorted_full: the line-by-line mirror of internal/sort (pdqsort with heapsort fallback) returns a sorted permutation for every size, strict weak order and regime; gen_sorter_semantics: the sorter of today's source (Sort, Len, Swap, Less, quickSort, maxDepth, heapSort, siftDown, doPivot, medianOfThree, insertionSort), regenerated statement by statement on every run and interpreted with Go semantics, returns exactly the mirror's permutation for every index and every comparison function, never indexes outside the array and terminates (gen_sorter_canon, gen_sorter_functions, gen_sorter_sorted_perm, gen_less_semantics); gen_compare_semantics / sorter_less_eq_rowLess: the comparators regenerated from today's source are the spec's keyCmp for all cells and flag settings, and Sorter.Less over them is the spec's rowLess; gen_reject_semantics (Sort rejects exactly unknown columns). The exact permutation of the real sorter is compared with the mirror on adversarial inputs; Sort results are checked to be sorted permutations.",
                "Lean 4 proof (unbounded induction over the sorter mirror; regenerated comparators) + exact differential correspondence"),
-    "C04": _lt("gen_aggregate_loops_semantics / gen_key_columns_semantics: the regenerated Aggregate loops hand each group's cells in order to the function and keep each group's first key. groupBy_partition: the mirror of the open-addressing table partitions the rows by key equality for every hash function, collision pattern and growth step; gen_hash_respects_equality (keys the regenerated comparator calls Equal get equal values from the regenerated Hash terms, for all cells and any byte hash), gen_agg_semantics (the built-in aggregations of today's source = the spec's on every non-empty group), gen_compare_keyEq. The real grouper is replayed exactly with injected hashes (incl. one run beyond 2^16 slots); Aggregate/QFrames are compared with the spec's groups.",
+    "C04": _lt("gen_aggregate_loops_semantics / gen_key_columns_semantics: the regenerated Aggregate loops hand each group's cells in order to the function and keep each group's first key. gen_grouper_semantics: the hash table of today's source (newTable, grow, hash, insertEntry, equals, groupIndex, GroupBy, Distinct), regenerated statement by statement on every run and interpreted with Go's uint32/uint64 arithmetic, yields exactly the mirror's table, groups and statistics for every list of comparables and every index of at most 2^30 rows (gen_grouper_canon, groupIndex_total, gen_groupBy_partition). groupBy_partition: the mirror of the open-addressing table partitions the rows by key equality for every hash function, collision pattern and growth step; gen_hash_respects_equality (keys the regenerated comparator calls Equal get equal values from the regenerated Hash terms, for all cells and any byte hash), gen_agg_semantics (the built-in aggregations of today's source = the spec's on every non-empty group), gen_compare_keyEq. The real grouper is replayed exactly with injected hashes (incl. one run beyond 2^16 slots); Aggregate/QFrames are compared with the spec's groups.",
                "Lean 4 proof (table invariant for any hash function; regenerated hash, comparator and aggregation terms) + differential correspondence",
                "runtime.memhash is a parameter (any function of bytes and seed)."),
-    "C05": _lt("distinct_spec on the spec; Distinct uses the same table as GroupBy (partition theorem of C04, regenerated Hash/Compare terms); gen_distinct_semantics (rejects exactly unknown columns, also on empty frames). Results of the real code are checked to hold exactly one whole row per key class.",
+    "C05": _lt("gen_distinct_spec / distinct_eq_distinctOf: Distinct of the grouper regenerated from today's source returns exactly one row (the first) of every key class, for every hash and equality (via gen_grouper_semantics); distinct_spec on the spec; Distinct uses the same table as GroupBy (partition theorem of C04, regenerated Hash/Compare terms); gen_distinct_semantics (rejects exactly unknown columns, also on empty frames). Results of the real code are checked to hold exactly one whole row per key class.",
                "Lean 4 proof (shared with C04) + differential correspondence"),
     "C06": _lt("gen_apply_loops_semantics: the Apply1/Apply2/apply0 loops regenerated from today's source write fn(cell of the same physical row) at every row of the index into a zero-initialised array of the full column length, for every column type and accepted signature - exactly applyInstr. setColumn_wf / setColumn_abs / applyFn1_rowwise and the C06Apply lemmas (replace in position or append last, other columns untouched); gen_apply_dispatch / gen_apply_loop (Apply's per-instruction dispatch and loop regenerated from source = applyS, stopping at the first failing instruction). Apply/FilteredApply/WithRowNums of the real code are compared exactly with the spec on derived frames, with a function catalogue defined identically in Go and Lean.",
                "Lean 4 proof (frame invariant, refinement lemmas, regenerated dispatch) + differential correspondence"),
@@ -164,7 +164,7 @@ LEVEL_TEXT = {
     "C11": _lt("interleaving_deterministic / ops_interleaving_deterministic: any multiset of the nine operation models, under every schedule, never writes a shared array and each ends where it ends alone. The real code is run under the race detector with batches of concurrent operations on shared and derived frames; results are compared with the sequential ones.",
                "Lean 4 proof (all schedules, ownership discipline) + race-detector runs as execution-based validation",
                "PARTIAL: the theorem is about the ownership model; that the Go code obeys the discipline (no write to shared storage) is observed by the race detector and by C01's re-observation, not proved from the source. Go memory model, unsafe string views and math/rand's lock are outside the model."),
-    "C12": _lt("gen_columnToData_spec: today's columnToData regenerated from source evaluates to the spec's csvColumn for all cell lists, oracles and configurations. read_schedule_independent / any_two_schedules_agree: the mirror of the whole fastcsv reader returns the same rows, fields and error for every read schedule; read_render' / read_eq_spec' / read_render_no_final_newline / read_render_trailing_delim: reading a rendered document returns its fields and equals the RFC 4180 scanner (quoted fields may contain CR LF); columnToData_eq_spec / infer_spec: the mirror of the type inference equals the spec. The real reader and ReadCSV are compared exactly with the array-level mirror, with the proof model (documents up to 2500 bytes) and with the spec on generated documents x read schedules x configurations.",
+    "C12": _lt("gen_csv_semantics_partial: the functions of internal/fastcsv/csv.go regenerated statement by statement from today's source (more, reset, eofReaderWrapper.Read, nextUnquotedField, nextQuotedField, fields.next, Reader.Next/Read/Err, NewReader) and interpreted with Go semantics return, for every document, read schedule, delimiter, buffer capacity and fault position, exactly what the array-level mirror returns (rows, final error, final buffer and reader state, or a panic of the same class) wherever the mirror does not give up for lack of fuel; gen_columnToData_spec: today's columnToData regenerated from source evaluates to the spec's csvColumn for all cell lists, oracles and configurations. read_schedule_independent / any_two_schedules_agree: the mirror of the whole fastcsv reader returns the same rows, fields and error for every read schedule; read_render' / read_eq_spec' / read_render_no_final_newline / read_render_trailing_delim: reading a rendered document returns its fields and equals the RFC 4180 scanner (quoted fields may contain CR LF); columnToData_eq_spec / infer_spec: the mirror of the type inference equals the spec. The real reader and ReadCSV are compared exactly with the array-level mirror, with the proof model (documents up to 2500 bytes) and with the spec on generated documents x read schedules x configurations.",
                "Lean 4 proof (simulation: any schedule = loaded buffer; read-back of rendered documents; type inference) + exact differential correspondence",
                "strconv parsing is a parameter (oracle computed by the harness from the standard library)."),
     "C13": _lt("parse_write / read_write: the byte-exact mirror of encoding/csv.Writer as ToCSV uses it is inverted by the RFC 4180 scanner and by the model of qframe's own reader for every read schedule (tocsv_read for the rows ToCSV produces); gen_stringAt_semantics (the cell strings regenerated from source); gen_tocsv_semantics / gen_tocsv_error (ToCSV's record program regenerated from source hands exactly tocsvRows of the selected columns to the csv writer, rejects iff csvColumns does, flushes and returns the writer's error). ToCSV output of the real code is parsed by the spec's scanner and must denote the frame; reading it back with ReadCSV must give the frame the property describes.",
@@ -172,7 +172,7 @@ LEVEL_TEXT = {
     "C14": _lt("tojson_parses / tojson_denotes: the mirror of ToJSON produces a text the RFC 8259 parser accepts and whose value is the array of row objects denoting the cells; quoted_parses (AppendQuotedString mirror, compared byte for byte with the real function); gen_append_semantics (per-cell bytes regenerated from source); gen_tojson_semantics / gen_tojson_writes (ToJSON's assembly loop regenerated from source writes exactly the mirror's toJSON, one Write per record, cut at the first failing Write); number tokens: ryu_text_is_shortest (C16). ToJSON output of the real code is parsed by the spec's parser and must denote the frame record by record, for every prefix length of a sweep frame; ReadJSON must invert it.",
                "Lean 4 proof (ToJSON mirror against an RFC 8259 parser; exact float semantics) + differential correspondence",
                "encoding/json is trusted for ReadJSON's decoding."),
-    "C15": _lt("fail_iff_reached: on the array-level mirror of the CSV reader, for every document, schedule, buffer size and failing call number the reader ends with the failure iff the failing call was made; gen_sticky_all for the writers. Exhaustive fault positions against the real code: every call number of the reader, every byte offset of the writers (ToCSV, ToJSON), ReadJSON reader faults at every offset, failing Prepare/Exec statement and failing row of the SQL driver.",
+    "C15": _lt("gen_fail_iff_reached_partial (the CSV reader regenerated from today's source, via gen_csv_semantics_partial) / fail_iff_reached: on the array-level mirror of the CSV reader, for every document, schedule, buffer size and failing call number the reader ends with the failure iff the failing call was made; gen_sticky_all for the writers. Exhaustive fault positions against the real code: every call number of the reader, every byte offset of the writers (ToCSV, ToJSON), ReadJSON reader faults at every offset, failing Prepare/Exec statement and failing row of the SQL driver.",
                "Lean 4 proof (fault propagation in the reader mirror) + exhaustive fault-position correspondence"),
     "C16": _lt("ryu_text_is_shortest (QF.Props.C16Link): for EVERY finite non-zero float64 (either sign) and every buffer state, the text that the statement-by-statement mirror of the Ryu core (QF.Ryu64, over the multiplier tables regenerated from the source) followed by the appendF layout appends is the shortest positional decimal that round-trips (Num.isShortestRoundTrip: canonical form, parses back to the identical bits under IEEE nearest-even - Num.ofDecimal itself proved correctly rounded -, no decimal with fewer digits does, closest of that length), and any correct IEEE parser returns exactly the float for it. ryu_shortest: Ryu's precision lemma is proved for the 121/122-bit tables of this port by kernel-checked Stern-Brocot certificates over all 2048 exponent fields; the two floats where one multiplier product is off by one are treated exactly. The mirror is compared with the implementation (decimal, exponent, fast-path flag) on every generated float, and every output text of the real formatter is judged by the same executable definition and against strconv.FormatFloat.",
                "Lean 4 proof (Ryu core end to end: mulShift64, logarithm approximations, divisibility tests, rounding interval, digit-removal loops, final rounding, trailing-zero flags, table precision, digit layout, link to the round-trip definition) + exact differential replay of the mirror",
